@@ -406,6 +406,10 @@ type StructCode struct {
 	disableIndirectConversion bool
 	isIndirect                bool
 	isRecursive               bool
+	// target is the code of the struct a recursive occurrence refers to (set together with
+	// isRecursive); isFiltered marks a code made by Filter, which is never the target of a recursion
+	target     *StructCode
+	isFiltered bool
 }
 
 func (c *StructCode) Kind() CodeKind {
@@ -445,6 +449,9 @@ func (c *StructCode) ToOpcode(ctx *compileContext) Opcodes {
 		recursive.Type = c.typ
 		ctx.incIndex()
 		*ctx.recursiveCodes = append(*ctx.recursiveCodes, recursive)
+		if c.target != nil {
+			ctx.recursiveTargets[recursive] = c.target
+		}
 		return Opcodes{recursive}
 	}
 	codes := Opcodes{}
@@ -502,7 +509,11 @@ func (c *StructCode) ToOpcode(ctx *compileContext) Opcodes {
 		ctx.incIndex()
 	}
 	ctx.decIndent()
-	ctx.structTypeToCodes[uintptr(unsafe.Pointer(c.typ))] = codes
+	if !c.isFiltered {
+		// a recursive occurrence encodes the whole struct: a code cut down by a field query is not
+		// what it refers to
+		ctx.structTypeToCodes[uintptr(unsafe.Pointer(c.typ))] = codes
+	}
 	return codes
 }
 
@@ -515,6 +526,9 @@ func (c *StructCode) ToAnonymousOpcode(ctx *compileContext) Opcodes {
 		recursive.Type = c.typ
 		ctx.incIndex()
 		*ctx.recursiveCodes = append(*ctx.recursiveCodes, recursive)
+		if c.target != nil {
+			ctx.recursiveTargets[recursive] = c.target
+		}
 		return Opcodes{recursive}
 	}
 	codes := Opcodes{}
@@ -587,6 +601,15 @@ func (c *StructCode) enableIndirect() {
 }
 
 func (c *StructCode) Filter(query *FieldQuery) Code {
+	if c.isRecursive && c.target != nil {
+		// a recursive occurrence with a query of its own: the fields of the struct it refers to,
+		// selected by that query, in the place (pointer / indirection) of the occurrence
+		expanded := c.target.Filter(query).(*StructCode)
+		expanded.isPtr = c.isPtr
+		expanded.disableIndirectConversion = c.disableIndirectConversion
+		expanded.isIndirect = c.isIndirect
+		return expanded
+	}
 	fieldMap := map[string]*FieldQuery{}
 	for _, field := range query.Fields {
 		fieldMap[field.Name] = field
@@ -636,6 +659,7 @@ func (c *StructCode) Filter(query *FieldQuery) Code {
 		disableIndirectConversion: c.disableIndirectConversion,
 		isIndirect:                c.isIndirect,
 		isRecursive:               c.isRecursive,
+		isFiltered:                true,
 	}
 }
 
